@@ -269,3 +269,85 @@ Theorem argsort_realises_sort_cols : forall asc sz t' rows outA outS,
     = Ok (map snd (colv p outS)).
 Proof. exact Proofs_SortCols3.argsort_realises_sort_cols. Qed.
 Print Assumptions argsort_realises_sort_cols.
+
+From AwkV Require Import Ops_SortAxes Proofs_SortAxes Proofs_SortAxes2 Proofs_SortAxes3.
+
+(* ================================================================ sort along a NON-innermost axis: layout model (non-local branch) refines the spec *)
+(* the value-level column sort is total on well-typed rows of the handled element types (lists, not strings, over
+   numbers; option nodes on the leaves) *)
+Theorem sortcols_total_on_handled_types : forall asc t, saxty t = true -> forall rows,
+  Forall (fun jv : Z * value => has_type t (snd jv)) rows -> exists out, sortcols asc false t rows = Ok out.
+Proof. exact Proofs_SortAxes.sortcols_total. Qed.
+Print Assumptions sortcols_total_on_handled_types.
+
+(* every node class: [sax] (columns through the groups of positions, recursion, gathering back) answers a VALID layout
+   that lists, group after group, [sortcols] of the values at the group's positions *)
+Theorem sort_axes_groups_refine_sortcols : forall asc c p groups vs,
+  Valid p c -> frag1 c = true -> saxty (type_of_p p c) = true -> to_list c = Ok vs ->
+  Proofs_Reduce.in_range (zlen vs) groups ->
+  exists c' outs, sax asc p c groups = Ok c' /\ Valid None c' /\
+                  sax_spec asc (type_of_p p c) vs groups = Ok outs /\
+                  to_list c' = Ok (concat (map (map snd) outs)).
+Proof. exact Proofs_SortAxes2.sax_all. Qed.
+Print Assumptions sort_axes_groups_refine_sortcols.
+
+Theorem sort_axes_refines_spec_partial : forall asc axis c vs,
+  Valid None c -> saxfrag c = true -> to_list c = Ok vs -> sort_axes_modelled asc axis c = true ->
+  obs (sort_axes_model asc axis c) = sort_spec asc false axis (type_of c) vs.
+Proof. exact Proofs_SortAxes3.sort_axes_refines_spec_partial. Qed.
+Print Assumptions sort_axes_refines_spec_partial.
+
+Theorem sort_axes_modelled_on_fragment : forall asc axis c vs,
+  Valid None c -> saxfrag c = true -> to_list c = Ok vs -> saxty (type_of c) = true ->
+  sort_axes_modelled asc axis c = true.
+Proof. exact Proofs_SortAxes3.sort_axes_modelled_on_fragment. Qed.
+Print Assumptions sort_axes_modelled_on_fragment.
+
+Theorem sort_axes_refines_spec_on_fragment : forall asc axis c vs,
+  Valid None c -> saxfrag c = true -> to_list c = Ok vs -> saxty (type_of c) = true ->
+  obs (sort_axes_model asc axis c) = sort_spec asc false axis (type_of c) vs.
+Proof. exact Proofs_SortAxes3.sort_axes_refines_spec_on_fragment. Qed.
+Print Assumptions sort_axes_refines_spec_on_fragment.
+
+Theorem sort_axes_never_out_of_bounds : forall asc axis c vs,
+  Valid None c -> saxfrag c = true -> to_list c = Ok vs ->
+  sort_axes_model asc axis c <> Err EOob /\
+  (sort_axes_modelled asc axis c = true -> sort_axes_model asc axis c <> Err EFuel) /\
+  (forall c', sort_axes_model asc axis c = Ok c' -> exists ws, to_list c' = Ok ws).
+Proof. exact Proofs_SortAxes3.sort_axes_never_out_of_bounds. Qed.
+Print Assumptions sort_axes_never_out_of_bounds.
+
+Theorem layout_independent_sort_axes : forall asc axis a b vs,
+  Valid None a -> Valid None b -> saxfrag a = true -> saxfrag b = true ->
+  to_list a = Ok vs -> to_list b = Ok vs -> type_of a = type_of b ->
+  sort_axes_modelled asc axis a = true -> sort_axes_modelled asc axis b = true ->
+  obs (sort_axes_model asc axis a) = obs (sort_axes_model asc axis b).
+Proof. exact Proofs_SortAxes3.layout_independent_sort_axes. Qed.
+Print Assumptions layout_independent_sort_axes.
+
+Theorem layout_independent_sort_axes_on_fragment : forall asc axis a b vs,
+  Valid None a -> Valid None b -> saxfrag a = true -> saxfrag b = true ->
+  to_list a = Ok vs -> to_list b = Ok vs -> type_of a = type_of b -> saxty (type_of a) = true ->
+  obs (sort_axes_model asc axis a) = obs (sort_axes_model asc axis b).
+Proof. exact Proofs_SortAxes3.layout_independent_sort_axes_on_fragment. Qed.
+Print Assumptions layout_independent_sort_axes_on_fragment.
+
+(* the combined model run by the correspondence: [sort_model] on the innermost axis and for argsort, [sort_axes_model]
+   for sort along the other axes *)
+Theorem sort_all_refines_spec_partial : forall asc argsort axis c vs,
+  Valid None c -> saxfrag c = true -> to_list c = Ok vs -> sort_all_modelled asc argsort axis c = true ->
+  obs (sort_model_all asc argsort axis c) = sort_spec asc argsort axis (type_of c) vs.
+Proof. exact Proofs_SortAxes3.sort_all_refines_spec_partial. Qed.
+Print Assumptions sort_all_refines_spec_partial.
+
+Theorem sort_all_modelled_on_fragment : forall asc axis c vs,
+  Valid None c -> saxfrag c = true -> to_list c = Ok vs -> saxty (type_of c) = true ->
+  sort_all_modelled asc false axis c = true.
+Proof. exact Proofs_SortAxes3.sort_all_modelled_on_fragment. Qed.
+Print Assumptions sort_all_modelled_on_fragment.
+
+Theorem sort_all_refines_spec_on_fragment : forall asc axis c vs,
+  Valid None c -> saxfrag c = true -> to_list c = Ok vs -> saxty (type_of c) = true ->
+  obs (sort_model_all asc false axis c) = sort_spec asc false axis (type_of c) vs.
+Proof. exact Proofs_SortAxes3.sort_all_refines_spec_on_fragment. Qed.
+Print Assumptions sort_all_refines_spec_on_fragment.
